@@ -41,22 +41,30 @@ Definition bound_name (s : stmt) : option string :=
 
 (* ------------------------------------------------------------------------------------------------------------ *)
 (* sources of an assembled __all__: the local name is bound by exactly one statement of the body, an import standing before
-   the __all__ statement with no wildcard import in between, of the form the reference needs (a module for `x.__all__`;
-   `from m import __all__ as x` for the bare name: finding F11 is the other case)                                    *)
+   the __all__ statement, of the form the reference needs (a module for `x.__all__`; a from-import for the bare name: of the list
+   itself, `from m import __all__ as x`, or of a name another module bound to the list)                                    *)
 (* ------------------------------------------------------------------------------------------------------------ *)
 Definition binder_form (a : bool) (s : stmt) : bool :=
   match s with
   | SImport _ _ _ => a
-  | SFrom _ _ x _ _ => if a then negb (String.eqb x "__all__") else String.eqb x "__all__"
+  | SFrom _ _ x _ _ => if a then negb (String.eqb x "__all__") else true
   | _ => false
   end.
 
-(* pre_rev: the statements before the __all__ statement, nearest first *)
+(* pre_rev: the statements before the __all__ statement, nearest first.  A wildcard import between the import of the name and the
+   __all__ statement is judged on CPython's run (sources_not_rebound below): it must not expose the name. *)
 Fixpoint ref_scan (l : string) (a : bool) (pre_rev : list stmt) : bool :=
   match pre_rev with
   | [] => false
-  | s :: r => if may_bind l s then binder_form a s && negb (existsb (may_bind l) r)
-              else match s with SStar _ _ => false | _ => ref_scan l a r end
+  | s :: r => if may_bind l s then binder_form a s && negb (existsb (may_bind l) r) else ref_scan l a r
+  end.
+
+(* the targets of the wildcard imports that stand between the import of l and the __all__ statement *)
+Fixpoint stars_before (l : string) (pre_rev : list stmt) : list path :=
+  match pre_rev with
+  | [] => []
+  | s :: r => if may_bind l s then []
+              else match s with SStar _ T => T :: stars_before l r | _ => stars_before l r end
   end.
 
 Definition items_of (s : stmt) : list item :=
@@ -87,8 +95,7 @@ Definition stmt_ok (mp : path) (is_init : bool) (cs : list string) (s : stmt) : 
       && (if bare && is_init then path_eqb T mp else true)
   | SStar _ _ => true
   | SImport _ T asn => let b := match asn with Some a => a | None => hd "" T end in plain b && negb (mem_str b cs)
-  | SSetAll _ _ | SAddAll _ _ => true
-  | SExtAll _ _ => false                                                         (* finding F6 *)
+  | SSetAll _ _ | SAddAll _ _ | SExtAll _ _ => true
   end.
 
 Definition star_targets (body : list stmt) : list path :=
@@ -169,7 +176,26 @@ Definition submodules_recorded (ms : list modsrc) (pt : pytable) : bool :=
                                             end) (children_of ms T)
              end) pt.
 
-Definition wf_run (ms : list modsrc) (pt : pytable) : bool := stars_keep_children ms pt && submodules_recorded ms pt.
+(* finding F12 (the part that depends on the run): no wildcard import standing between the import of a source of an assembled __all__
+   and the __all__ statement exposes the name of the source *)
+Fixpoint refs_run_from (pt : pytable) (pre_rev rest : list stmt) : bool :=
+  match rest with
+  | [] => true
+  | s :: r =>
+      forallb (fun it => match it with
+                         | IStr _ => true
+                         | IRef l _ => forallb (fun T => match get_py pt T with
+                                                         | Some tm => negb (mem_str l (py_star_names tm))
+                                                         | None => true
+                                                         end) (stars_before l pre_rev)
+                         end) (items_of s)
+      && refs_run_from pt (s :: pre_rev) r
+  end.
+Definition sources_not_rebound (ms : list modsrc) (pt : pytable) : bool :=
+  forallb (fun ppm => refs_run_from pt [] (body_of ms (fst ppm))) pt.
+
+Definition wf_run (ms : list modsrc) (pt : pytable) : bool :=
+  stars_keep_children ms pt && submodules_recorded ms pt && sources_not_rebound ms pt.
 
 (* ------------------------------------------------------------------------------------------------------------ *)
 (* dispatcher                                                                                                    *)
